@@ -396,7 +396,7 @@ def run_case(ctx, label, make_doc, ops, case, original_section=None):
 
 # ---- the check -------------------------------------------------------------------------------
 def run(ctx: core.Run):
-    extract_c07.gen_pixels(ctx)
+    ctx.regenerate(extract_c07.gen_pixels)
     ctx.prove(["PsdVerif.Props.C17"])
     ctx.trusted_base += [
         "Lean 4.33 kernel; axioms allowed: propext, Classical.choice, Quot.sound (audited per theorem)",
